@@ -13,6 +13,7 @@ buffer starts with capacity ≥ 14 (`NewByteBuffer` gives 512).  Memory exhausti
 import Sonic.Lemmas.WsDecode
 import Sonic.Lemmas.WsFrames
 import Sonic.Lemmas.WsEncodeSpec
+import Sonic.Props.WsFrameTie
 
 namespace Sonic.Props.C07
 open Sonic.Model.WsBuf Sonic.Model.WsFrame Sonic.Spec.WsFrame
